@@ -256,6 +256,7 @@ crate::harnesses! {
     /// radix 8: "D.DDD…" with 24 symbolic digits (more than fit in 64 bits: reaches binary() halfway detection and slow_binary).
     /// @prop C05 C10
     /// @tier thorough
+    /// @mem 9
     /// @feat pow2 radix
     /// @bound radix 8, inputs of the shape [1-7].[0-7]{23}
     /// @fn lexical-parse-float::binary::binary
@@ -269,6 +270,7 @@ crate::harnesses! {
     /// radix 16: 18 symbolic hex digits.
     /// @prop C05 C10
     /// @tier thorough
+    /// @mem 9
     /// @feat pow2 radix
     /// @bound radix 16, inputs of the shape [1-F].[0-F]{17}
     /// @fn lexical-parse-float::binary::slow_binary
@@ -279,6 +281,7 @@ crate::harnesses! {
     /// radix 32: 14 symbolic digits.
     /// @prop C05 C10
     /// @tier thorough
+    /// @mem 9
     /// @feat pow2 radix
     /// @bound radix 32, inputs of the shape [1-V].[0-V]{13}
     /// @fn lexical-parse-float::binary::slow_binary
@@ -290,6 +293,7 @@ crate::harnesses! {
     /// handling of the slow path, and agreement between the slow path's digit budget and `Number::exponent`.
     /// @prop C05 C10
     /// @tier thorough
+    /// @mem 9
     /// @feat pow2 radix
     /// @bound radix 8, inputs of the shape [1-7].0{16}[0-7]{7}
     /// @fn lexical-parse-float::binary::binary
@@ -302,6 +306,7 @@ crate::harnesses! {
     /// radix 32, halfway band: "D." + 9 zero digits + 4 symbolic digits.
     /// @prop C05 C10
     /// @tier thorough
+    /// @mem 9
     /// @feat pow2 radix
     /// @bound radix 32, inputs of the shape [1-V].0{9}[0-V]{4}
     /// @fn lexical-parse-float::binary::slow_binary
@@ -311,6 +316,7 @@ crate::harnesses! {
 
     /// radix 2/4/8/16/32 short inputs (<= 8 digits): exact path `binary()` only.
     /// @prop C05 C10
+    /// @mem 9
     /// @feat pow2 radix
     /// @bound radix 8, inputs of the shape [1-7].[0-7]{7}
     /// @fn lexical-parse-float::binary::binary
